@@ -36,7 +36,30 @@ const (
 	ovOperand       // an evaluated operand (role; VM: pop ordinal)
 	ovInstr         // a compiler instruction value carrying opcode c
 	ovApplied       // result of a Go operator applied to operand payloads
+	ovDiag          // a diagnostic value of level c (nil: level not a known constant)
+	ovTuple         // the results of a multi-result call (tup)
+	ovFunc          // a function literal bound to a local (fn)
+	ovTable         // a map / slice / array written as a composite literal with constant keys or elements (tbl)
+	ovCmp           // the truth value of `x tok lit` for an operand payload x (cmp)
+	ovNil           // the nil literal
+	ovNonNil        // a pointer / interface value known not to be nil
 )
+
+// opsTable: a table written as data (map[K]V{...}, []T{...}) whose keys /
+// elements are compile-time constants.
+type opsTable struct {
+	info  *types.Info
+	isMap bool
+	keys  []ast.Expr
+	vals  []ast.Expr
+	elemT types.Type
+}
+
+type opsCmp struct {
+	x   opsVal
+	tok token.Token
+	lit constant.Value
+}
 
 type opsVal struct {
 	k      opsVK
@@ -48,6 +71,10 @@ type opsVal struct {
 	inner  bool         // the payload field (.Inner) of the operand was selected
 	innerT types.Type   // its Go type
 	convs  []types.Type // Go conversions applied to the payload, innermost first
+	tup    []opsVal
+	fn     *ast.FuncLit
+	tbl    *opsTable
+	cmp    *opsCmp
 }
 
 func (v opsVal) String() string {
@@ -76,6 +103,27 @@ func (v opsVal) String() string {
 		return "instr ?"
 	case ovApplied:
 		return "applied"
+	case ovDiag:
+		if v.c != nil {
+			return "diagnostic " + v.c.Name()
+		}
+		return "diagnostic ?"
+	case ovTuple:
+		var s []string
+		for _, t := range v.tup {
+			s = append(s, t.String())
+		}
+		return "(" + strings.Join(s, ", ") + ")"
+	case ovFunc:
+		return "func literal"
+	case ovTable:
+		return "table"
+	case ovCmp:
+		return fmt.Sprintf("[%s %s %s]", v.cmp.x, v.cmp.tok, v.cmp.lit.ExactString())
+	case ovNil:
+		return "nil"
+	case ovNonNil:
+		return "non-nil"
 	}
 	return "?"
 }
@@ -187,22 +235,45 @@ type opsCfg struct {
 	// only the first (left / base) operand carries the kind dimension
 	primaryOnly bool
 	// further enum types whose constants make a callee worth inlining (operator enums)
-	trigger  map[*types.TypeName]bool
-	isPop    func(*types.Func) bool
-	isErr    func(*types.Func) bool
-	maxDepth int
+	trigger map[*types.TypeName]bool
+	isPop   func(*types.Func) bool
+	isErr   func(*types.Func, []opsVal) bool
+	diag    *opsModel // analyzer walks: the model resolving diagnostic values / lists
+	// callees that are inlined whatever their arguments (helpers that pop operands)
+	inlineAlways func(*types.Func) bool
+	maxDepth     int
 }
 
 type opsSt struct {
+	env     map[types.Object]opsVal
+	ev      []opsEvent
+	nPop    int
+	ret     []opsVal
+	dead    string
+	deadPos token.Pos
+	// multi-path callees: which alternative is taken at the n-th such call on this path
+	choices []int
+	nFork   int
+	// operand of the type switch being entered
+	tsVal opsVal
+	// set on the state that continues behind a type switch without default clause when one of
+	// its clauses certainly matches: that continuation is infeasible
+	tsSkip bool
+	// the path is not a path of this run (see enter): silently discarded
+	drop bool
+	// deferred calls, with the bindings at the defer statement
+	deferred []opsDeferred
+}
+
+type opsDeferred struct {
+	call *ast.CallExpr
 	env  map[types.Object]opsVal
-	ev   []opsEvent
-	nPop int
-	ret  []opsVal
-	dead string
 }
 
 func opsCloneSt(s *opsSt) *opsSt {
-	n := &opsSt{env: make(map[types.Object]opsVal, len(s.env)), nPop: s.nPop, dead: s.dead}
+	n := &opsSt{env: make(map[types.Object]opsVal, len(s.env)), nPop: s.nPop, dead: s.dead, deadPos: s.deadPos, nFork: s.nFork, tsVal: s.tsVal, tsSkip: s.tsSkip, drop: s.drop}
+	n.choices = append([]int(nil), s.choices...)
+	n.deferred = append([]opsDeferred(nil), s.deferred...)
 	for k, v := range s.env {
 		n.env[k] = v
 	}
@@ -220,16 +291,26 @@ type opsEng struct {
 	consMemo map[*types.Func]*types.Const
 	ordMemo  map[*types.TypeName]opsFieldOrder
 	enumMemo map[*types.TypeName]bool
+	divMemo  map[*types.Func]bool
 	// constants of usage-based enums (untyped constants used as a named type)
 	constEnum map[*types.Const]*types.TypeName
 	exprIfs   []*types.TypeName // the expression interfaces of the two ASTs
 	instrIf   *types.TypeName   // compiler.Instruction
+	opcodeT   *types.TypeName   // the opcode enum
 	inlines   int
+	pkgVars   map[*types.Var]*opsPkgVar
+	nonNil    map[*types.Func]int
+}
+
+type opsPkgVar struct {
+	init    ast.Expr
+	info    *types.Info
+	mutated bool
 }
 
 func newOpsEng(c *Ctx) *opsEng {
 	g := &opsEng{c: c, infoOf: map[*token.File]*types.Info{}, decls: map[*types.Func]*ast.FuncDecl{},
-		enumMemo: map[*types.TypeName]bool{}, constEnum: map[*types.Const]*types.TypeName{}, kindMemo: map[*types.TypeName]*types.Const{}, consMemo: map[*types.Func]*types.Const{}, ordMemo: map[*types.TypeName]opsFieldOrder{}}
+		enumMemo: map[*types.TypeName]bool{}, divMemo: map[*types.Func]bool{}, constEnum: map[*types.Const]*types.TypeName{}, kindMemo: map[*types.TypeName]*types.Const{}, consMemo: map[*types.Func]*types.Const{}, ordMemo: map[*types.TypeName]opsFieldOrder{}}
 	for _, p := range c.All {
 		for _, f := range p.Syntax {
 			g.infoOf[c.Fset.File(f.Pos())] = p.TypesInfo
@@ -446,6 +527,7 @@ type opsEv struct {
 	cfg   *opsCfg
 	info  *types.Info
 	depth int
+	spawn func(prefix []int) // request a re-run of the enclosing walk with this choice prefix
 }
 
 func (ev *opsEv) valOfConst(k *types.Const) opsVal {
@@ -466,7 +548,7 @@ func (ev *opsEv) valOfConst(k *types.Const) opsVal {
 	return opsVal{k: ovLit, lit: k.Val()}
 }
 
-func (ev *opsEv) eval(st *opsSt, e ast.Expr) opsVal {
+func (ev *opsEv) eval(st *opsSt, e ast.Expr) (out opsVal) {
 	if e == nil {
 		return opsVal{}
 	}
@@ -493,11 +575,17 @@ func (ev *opsEv) eval(st *opsSt, e ast.Expr) opsVal {
 			if v, ok := st.env[o]; ok {
 				return v
 			}
+			return ev.cfg.g.pkgTable(o)
+		case *types.Nil:
+			return opsVal{k: ovNil}
 		}
 		return opsVal{}
 	case *ast.SelectorExpr:
 		if k, ok := info.Uses[x.Sel].(*types.Const); ok {
 			return ev.valOfConst(k)
+		}
+		if pv, ok := info.Uses[x.Sel].(*types.Var); ok && !pv.IsField() {
+			return ev.cfg.g.pkgTable(pv) // pkg.Table
 		}
 		sel := info.Selections[x]
 		if sel == nil || sel.Kind() != types.FieldVal {
@@ -532,7 +620,23 @@ func (ev *opsEv) eval(st *opsSt, e ast.Expr) opsVal {
 	case *ast.UnaryExpr:
 		v := ev.eval(st, x.X)
 		if x.Op == token.AND {
+			if v.k == ovUnknown || v.k == ovNil {
+				return opsVal{k: ovNonNil}
+			}
 			return v
+		}
+		if x.Op == token.NOT {
+			switch v.k {
+			case ovLit:
+				if v.lit.Kind() == constant.Bool {
+					return opsVal{k: ovLit, lit: constant.MakeBool(!constant.BoolVal(v.lit))}
+				}
+			case ovCmp:
+				if nt := opsNegate(v.cmp.tok); nt != token.ILLEGAL {
+					return opsVal{k: ovCmp, cmp: &opsCmp{x: v.cmp.x, tok: nt, lit: v.cmp.lit}}
+				}
+				return opsVal{}
+			}
 		}
 		if v.k == ovOperand && v.inner {
 			st.ev = append(st.ev, opsEvent{k: oeUnary, tok: x.Op, x: v, goT: info.TypeOf(x.X), pos: x.Pos()})
@@ -546,6 +650,51 @@ func (ev *opsEv) eval(st *opsSt, e ast.Expr) opsVal {
 			st.ev = append(st.ev, opsEvent{k: oeApply, tok: x.Op, x: l, y: r, goT: info.TypeOf(x.X), pos: x.OpPos})
 			return opsVal{k: ovApplied}
 		}
+		switch x.Op {
+		case token.EQL, token.NEQ:
+			if l.k == ovConst && r.k == ovConst {
+				return opsVal{k: ovLit, lit: constant.MakeBool(opsSameConst(l.c, r.c) == (x.Op == token.EQL))}
+			}
+			isNil := func(v opsVal) (known, null bool) {
+				switch v.k {
+				case ovNil:
+					return true, true
+				case ovNonNil:
+					return true, false
+				}
+				return false, false
+			}
+			if lk, ln := isNil(l); lk {
+				if rk, rn := isNil(r); rk && (ln || rn) {
+					return opsVal{k: ovLit, lit: constant.MakeBool((ln == rn) == (x.Op == token.EQL))}
+				}
+			}
+			if l.k == ovLit && r.k == ovLit && l.lit.Kind() == r.lit.Kind() && l.lit.Kind() != constant.Unknown {
+				return opsVal{k: ovLit, lit: constant.MakeBool(constant.Compare(l.lit, x.Op, r.lit))}
+			}
+			fallthrough
+		case token.LSS, token.LEQ, token.GTR, token.GEQ:
+			if l.k == ovConst && r.k == ovConst && ev.cfg.g.enumTypeOf(l.c) == ev.cfg.g.enumTypeOf(r.c) {
+				// a range test over the constants of one enum
+				return opsVal{k: ovLit, lit: constant.MakeBool(constant.Compare(l.c.Val(), x.Op, r.c.Val()))}
+			}
+			op := x.Op
+			if l.k == ovLit && r.k == ovOperand {
+				l, r = r, l
+				op = opsFlip(op)
+			}
+			if l.k == ovOperand && l.inner && r.k == ovLit {
+				return opsVal{k: ovCmp, cmp: &opsCmp{x: l, tok: op, lit: r.lit}}
+			}
+		case token.LAND, token.LOR:
+			if l.k == ovLit && r.k == ovLit && l.lit.Kind() == constant.Bool && r.lit.Kind() == constant.Bool {
+				a, b := constant.BoolVal(l.lit), constant.BoolVal(r.lit)
+				if x.Op == token.LAND {
+					return opsVal{k: ovLit, lit: constant.MakeBool(a && b)}
+				}
+				return opsVal{k: ovLit, lit: constant.MakeBool(a || b)}
+			}
+		}
 		return opsVal{}
 	case *ast.TypeAssertExpr:
 		v := ev.eval(st, x.X)
@@ -554,20 +703,73 @@ func (ev *opsEv) eval(st *opsSt, e ast.Expr) opsVal {
 		}
 		return ev.assert(st, v, info.TypeOf(x.Type), x.Pos())
 	case *ast.CompositeLit:
-		for _, el := range x.Elts {
-			if kv, ok := el.(*ast.KeyValueExpr); ok {
-				v := ev.eval(st, kv.Value)
-				if id, ok := kv.Key.(*ast.Ident); ok && v.k == ovConst {
-					st.ev = append(st.ev, opsEvent{k: oeField, name: id.Name, c: v.c, pos: kv.Pos()})
+		res := opsVal{}
+		lt := info.TypeOf(x)
+		if dm := ev.cfg.diag; dm != nil && lt != nil && dm.isDiagType(lt) {
+			res = opsVal{k: ovDiag}
+		}
+		var lst *types.Struct
+		if lt != nil {
+			lst, _ = lt.Underlying().(*types.Struct)
+		}
+		if lt != nil && res.k == ovUnknown && ev.cfg.g.implementsInstr(lt) {
+			res = opsVal{k: ovInstr}
+		}
+		if tn := opsTypeName(lt); tn != nil && lst != nil && res.k == ovUnknown {
+			// a runtime value written as a literal instead of through its constructor
+			if k := ev.cfg.g.kindOf(tn); k != nil {
+				for dt := range ev.cfg.opndDims {
+					if ev.cfg.g.enumTypeOf(k) == dt {
+						st.ev = append(st.ev, opsEvent{k: oeConstruct, c: k, pos: x.Pos()})
+					}
 				}
-			} else {
-				ev.eval(st, el)
 			}
 		}
-		return opsVal{}
+		nev := len(st.ev)
+		defer func() {
+			// a literal of map / slice / array type whose parts have no effects is a table
+			if lt == nil || res.k != ovUnknown || len(st.ev) != nev {
+				return
+			}
+			switch lt.Underlying().(type) {
+			case *types.Map, *types.Slice, *types.Array:
+				out = ev.cfg.g.tableOf(info, x)
+			}
+		}()
+		for i, el := range x.Elts {
+			if kv, ok := el.(*ast.KeyValueExpr); ok {
+				v := ev.eval(st, kv.Value)
+				if id, ok := kv.Key.(*ast.Ident); ok && v.k == ovConst && lst != nil {
+					st.ev = append(st.ev, opsEvent{k: oeField, name: id.Name, c: v.c, pos: kv.Pos()})
+					if res.k == ovDiag && ev.cfg.g.enumTypeOf(v.c) == ev.cfg.diag.levelT {
+						res.c = v.c
+					}
+					if res.k == ovInstr && res.c == nil && ev.cfg.g.enumTypeOf(v.c) == ev.cfg.g.opcodeT {
+						res.c = v.c
+					}
+				}
+			} else {
+				v := ev.eval(st, el)
+				if v.k == ovConst && lst != nil && i < lst.NumFields() {
+					// positional struct literal: same event as the keyed form
+					st.ev = append(st.ev, opsEvent{k: oeField, name: lst.Field(i).Name(), c: v.c, pos: el.Pos()})
+					if res.k == ovDiag && ev.cfg.g.enumTypeOf(v.c) == ev.cfg.diag.levelT {
+						res.c = v.c
+					}
+					if res.k == ovInstr && res.c == nil && ev.cfg.g.enumTypeOf(v.c) == ev.cfg.g.opcodeT {
+						res.c = v.c
+					}
+				}
+			}
+		}
+		return res
 	case *ast.IndexExpr:
-		ev.eval(st, x.X)
-		ev.eval(st, x.Index)
+		t := ev.eval(st, x.X)
+		i := ev.eval(st, x.Index)
+		if t.k == ovTable {
+			v, _, _ := ev.lookup(st, t.tbl, i)
+			return v
+		}
 		return opsVal{}
 	case *ast.SliceExpr:
 		ev.eval(st, x.X)
@@ -575,7 +777,7 @@ func (ev *opsEv) eval(st *opsSt, e ast.Expr) opsVal {
 	case *ast.KeyValueExpr:
 		return ev.eval(st, x.Value)
 	case *ast.FuncLit:
-		return opsVal{}
+		return opsVal{k: ovFunc, fn: x}
 	case *ast.CallExpr:
 		return ev.call(st, x)
 	}
@@ -611,6 +813,35 @@ func (ev *opsEv) assert(st *opsSt, v opsVal, T types.Type, pos token.Pos) opsVal
 	return v
 }
 
+// assertHolds: does v.(T) succeed under the assumed dimensions (1 yes, 0 no, -1 not decidable).
+func (ev *opsEv) assertHolds(v opsVal, T types.Type) int {
+	tn := opsTypeName(T)
+	if tn == nil {
+		return -1
+	}
+	if _, isIface := tn.Type().Underlying().(*types.Interface); isIface {
+		return -1
+	}
+	k := ev.cfg.g.kindOf(tn)
+	if k == nil {
+		return -1
+	}
+	var a *types.Const
+	switch {
+	case v.k == ovNode:
+		a = ev.cfg.nodeDims[ev.cfg.g.enumTypeOf(k)]
+	case v.k == ovOperand && !v.inner:
+		a = ev.cfg.opndDims[ev.cfg.g.enumTypeOf(k)]
+	}
+	if a == nil {
+		return -1
+	}
+	if opsSameConst(a, k) {
+		return 1
+	}
+	return 0
+}
+
 func (ev *opsEv) isChildEval(fn *types.Func) bool {
 	sig := fn.Type().(*types.Signature)
 	if sig.Recv() == nil || opsTypeName(sig.Recv().Type()) != ev.cfg.recv {
@@ -632,6 +863,18 @@ func (ev *opsEv) call(st *opsSt, call *ast.CallExpr) opsVal {
 			v.convs = append(append([]types.Type(nil), v.convs...), tv.Type)
 			return v
 		}
+		if v.k == ovConst {
+			// conversion between enums: the constant of the target enum with the same value
+			if opsTypeName(tv.Type) == g.enumTypeOf(v.c) {
+				return v
+			}
+			if en := g.opsEnumOf(tv.Type); en != nil {
+				if ks := en.ByVal[v.c.Val().ExactString()]; len(ks) == 1 {
+					return opsVal{k: ovConst, c: ks[0]}
+				}
+			}
+			return opsVal{}
+		}
 		if v.k == ovLit || v.k == ovApplied {
 			return v
 		}
@@ -639,9 +882,19 @@ func (ev *opsEv) call(st *opsSt, call *ast.CallExpr) opsVal {
 	}
 	// builtins
 	if id, ok := ast.Unparen(call.Fun).(*ast.Ident); ok {
-		if _, ok := info.Uses[id].(*types.Builtin); ok {
-			for _, a := range call.Args {
-				ev.eval(st, a)
+		if b, ok := info.Uses[id].(*types.Builtin); ok {
+			vals := make([]opsVal, len(call.Args))
+			for i, a := range call.Args {
+				vals[i] = ev.eval(st, a)
+			}
+			// append(<the Analyzer's diagnostic list>, <diagnostic of level Error>): an error report written in place
+			if dm := ev.cfg.diag; dm != nil && b.Name() == "append" && len(call.Args) >= 2 && dm.diagListField(info, call.Args[0]) != nil {
+				for _, v := range vals[1:] {
+					if v.k == ovDiag && dm.isErrLevel(v.c) {
+						st.ev = append(st.ev, opsEvent{k: oeError, pos: call.Pos()})
+						break
+					}
+				}
 			}
 			return opsVal{}
 		}
@@ -660,6 +913,42 @@ func (ev *opsEv) call(st *opsSt, call *ast.CallExpr) opsVal {
 		args[i] = ev.eval(st, a)
 	}
 	if callee == nil {
+		// a function literal bound to a local (closure helper): walked in place with the current bindings
+		var lit *ast.FuncLit
+		switch f := ast.Unparen(call.Fun).(type) {
+		case *ast.Ident:
+			if obj, ok := info.Uses[f].(*types.Var); ok {
+				if fv := st.env[obj]; fv.k == ovFunc {
+					lit = fv.fn
+				}
+			}
+		case *ast.FuncLit:
+			lit = f
+		}
+		{
+			{
+				if f := (opsVal{k: ovFunc, fn: lit}); lit != nil && ev.depth < ev.cfg.maxDepth+1 && !call.Ellipsis.IsValid() {
+					bind := make(map[types.Object]opsVal, len(st.env)+len(args))
+					for k, v := range st.env {
+						bind[k] = v
+					}
+					n := 0
+					for _, fl := range f.fn.Type.Params.List {
+						for _, nm := range fl.Names {
+							if n < len(args) {
+								bind[info.Defs[nm]] = args[n]
+							}
+							n++
+						}
+					}
+					sub, ok := g.walkBody(ev.cfg, f.fn.Body, f.fn.End(), info, bind, ev.depth+1, st.nPop)
+					if !ok || len(sub) == 0 {
+						return opsVal{}
+					}
+					return ev.enter(st, sub)
+				}
+			}
+		}
 		return opsVal{}
 	}
 	sig, _ := callee.Type().(*types.Signature)
@@ -675,8 +964,30 @@ func (ev *opsEv) call(st *opsSt, call *ast.CallExpr) opsVal {
 		st.ev = append(st.ev, opsEvent{k: oeAcquire, role: args[0].role, pos: call.Pos()})
 		return opsVal{k: ovOperand, role: args[0].role}
 	}
-	if ev.cfg.isErr != nil && ev.cfg.isErr(callee) {
+	if ev.cfg.isErr != nil && ev.cfg.isErr(callee, args) {
 		st.ev = append(st.ev, opsEvent{k: oeError, pos: call.Pos()})
+		return opsVal{}
+	}
+	if dm := ev.cfg.diag; dm != nil {
+		// a diagnostic constructor: the level it is given / it fixes
+		if ct := dm.diagCtors[callee]; ct != nil {
+			v := opsVal{k: ovDiag}
+			switch ct.k {
+			case orConst:
+				v.c = ct.c
+			case orParam:
+				if ct.param < len(args) && args[ct.param].k == ovConst {
+					v.c = args[ct.param].c
+				}
+			}
+			return v
+		}
+	}
+	// membership in a table written as data: slices.Contains(tbl, k)
+	if callee.Pkg() != nil && callee.Pkg().Path() == "slices" && callee.Name() == "Contains" && len(args) == 2 && args[0].k == ovTable {
+		if has, known := ev.contains(args[0].tbl, args[1]); known {
+			return opsVal{k: ovLit, lit: constant.MakeBool(has)}
+		}
 		return opsVal{}
 	}
 	// nullary method: a dimension, or a transparent accessor (.Type())
@@ -704,8 +1015,37 @@ func (ev *opsEv) call(st *opsSt, call *ast.CallExpr) opsVal {
 	if g.instrIf != nil {
 		if res := sig.Results(); res.Len() == 1 && g.implementsInstr(res.At(0).Type()) && sig.Recv() == nil {
 			v := opsVal{k: ovInstr}
-			if len(args) > 0 && args[0].k == ovConst {
+			// the opcode: the argument of the opcode enum type (by type, wherever it stands)
+			for _, a := range args {
+				if a.k == ovConst && g.opcodeT != nil && g.enumTypeOf(a.c) == g.opcodeT {
+					v.c = a.c
+					break
+				}
+			}
+			if v.c == nil && len(args) > 0 && args[0].k == ovConst {
 				v.c = args[0].c
+			}
+			if v.c == nil {
+				// the constructor fixes the opcode itself (newCastInstruction)
+				if fd := g.decls[callee]; fd != nil && ev.depth < ev.cfg.maxDepth {
+					if sub, ok := g.walk(ev.cfg, fd, ev.bindParams(fd, opsVal{}, false, args), ev.depth+1, st.nPop); ok {
+						var k *types.Const
+						uniq := true
+						for _, p := range sub {
+							if p.out == cPanic {
+								continue
+							}
+							if len(p.ret) != 1 || p.ret[0].k != ovInstr || p.ret[0].c == nil || (k != nil && k != p.ret[0].c) {
+								uniq = false
+								break
+							}
+							k = p.ret[0].c
+						}
+						if uniq {
+							v.c = k
+						}
+					}
+				}
 			}
 			return v
 		}
@@ -730,10 +1070,17 @@ func (ev *opsEv) call(st *opsSt, call *ast.CallExpr) opsVal {
 		st.ev = append(st.ev, opsEvent{k: oeApply, fn: name, x: args[0], y: args[1], pos: call.Pos()})
 		return opsVal{k: ovApplied}
 	}
+	// results known not to be nil (error constructors)
+	nonNil := func() opsVal {
+		if sig.Results().Len() == 1 && g.decls[callee] != nil && g.nonNilResults(callee)&1 != 0 {
+			return opsVal{k: ovNonNil}
+		}
+		return opsVal{}
+	}
 	// inline statically bound helpers that receive a dimension value, a node or an operand
 	fd := g.decls[callee]
 	if fd == nil || ev.depth >= ev.cfg.maxDepth {
-		return opsVal{}
+		return nonNil()
 	}
 	if fn := ast.Unparen(call.Fun); hasRecv {
 		if s := info.Selections[fn.(*ast.SelectorExpr)]; s != nil && types.IsInterface(s.Recv()) {
@@ -751,6 +1098,10 @@ func (ev *opsEv) call(st *opsSt, call *ast.CallExpr) opsVal {
 			return true
 		case ovSrc, ovOperand:
 			return !v.via
+		case ovCmp:
+			return true
+		case ovTuple:
+			return true
 		}
 		return false
 	}
@@ -760,13 +1111,48 @@ func (ev *opsEv) call(st *opsSt, call *ast.CallExpr) opsVal {
 			trig = true
 		}
 	}
+	if ev.cfg.inlineAlways != nil && ev.cfg.inlineAlways(callee) {
+		trig = true
+	}
+	// a helper of the engine's own package that yields a dimension / operator / opcode constant or an
+	// instruction (e.g. the get/set opcodes of a variable): its result matters whatever it receives
+	if !trig && callee.Pkg() != nil && ev.cfg.recv != nil && callee.Pkg() == ev.cfg.recv.Pkg() {
+		for i := 0; i < sig.Results().Len(); i++ {
+			rt := sig.Results().At(i).Type()
+			if tn := opsTypeName(rt); tn != nil {
+				if _, isPtr := types.Unalias(rt).(*types.Pointer); isPtr {
+					continue
+				}
+				_, a := ev.cfg.nodeDims[tn]
+				_, b := ev.cfg.opndDims[tn]
+				if a || b || ev.cfg.trigger[tn] {
+					trig = true
+				}
+			}
+		}
+	}
 	if !trig || sig.Variadic() {
+		return nonNil()
+	}
+	g.inlines++
+	sub, ok := g.walk(ev.cfg, fd, ev.bindParams(fd, recvVal, hasRecv, args), ev.depth+1, st.nPop)
+	if !ok || len(sub) == 0 {
 		return opsVal{}
 	}
+	return ev.enter(st, sub)
+}
+
+// bindParams binds the receiver and the parameters of fd to the evaluated
+// receiver / arguments of a call.
+func (ev *opsEv) bindParams(fd *ast.FuncDecl, recvVal opsVal, hasRecv bool, args []opsVal) map[types.Object]opsVal {
 	bind := map[types.Object]opsVal{}
-	cinfo := g.info(fd)
+	cinfo := ev.cfg.g.info(fd)
 	if fd.Recv != nil && len(fd.Recv.List) > 0 && len(fd.Recv.List[0].Names) > 0 && hasRecv {
 		bind[cinfo.Defs[fd.Recv.List[0].Names[0]]] = recvVal
+	}
+	// f(g()) with a multi-result g: the tuple is spread over the parameters
+	if len(args) == 1 && args[0].k == ovTuple {
+		args = args[0].tup
 	}
 	i := 0
 	for _, f := range fd.Type.Params.List {
@@ -777,31 +1163,74 @@ func (ev *opsEv) call(st *opsSt, call *ast.CallExpr) opsVal {
 			i++
 		}
 	}
-	g.inlines++
-	sub, ok := g.walk(ev.cfg, fd, bind, ev.depth+1, st.nPop)
-	if !ok || len(sub) == 0 {
+	return bind
+}
+
+func opsRetVal(ret []opsVal) opsVal {
+	switch len(ret) {
+	case 0:
+		return opsVal{}
+	case 1:
+		return ret[0]
+	}
+	return opsVal{k: ovTuple, tup: append([]opsVal(nil), ret...)}
+}
+
+func opsAltKey(p opsPath) string {
+	var b strings.Builder
+	b.WriteString(p.render())
+	for _, r := range p.ret {
+		b.WriteString("|")
+		b.WriteString(r.String())
+	}
+	fmt.Fprintf(&b, "|%d", p.pop)
+	return b.String()
+}
+
+// enter continues the caller's path through an inlined callee. A callee with a
+// single behaviour is spliced in. A callee with several alternatives (early
+// error return, guard, ...) makes the caller's walk fork: this path takes the
+// alternative recorded in its choice list, the walk is re-run for the others
+// (walkBody), so that the events of an alternative and the values it returns
+// stay correlated.
+func (ev *opsEv) enter(st *opsSt, sub []opsPath) opsVal {
+	var alts []opsPath
+	seen := map[string]bool{}
+	for _, p := range sub {
+		k := opsAltKey(p)
+		if !seen[k] {
+			seen[k] = true
+			alts = append(alts, p)
+		}
+	}
+	j := 0
+	if len(alts) > 1 {
+		n := st.nFork
+		st.nFork++
+		if n < len(st.choices) {
+			j = st.choices[n]
+			if j >= len(alts) {
+				// this choice prefix belongs to another call site reached with the same number of earlier
+				// choices (the other arm of a branch): no such path here
+				st.drop = true
+				return opsVal{}
+			}
+		} else {
+			for a := 1; a < len(alts) && ev.spawn != nil; a++ {
+				ev.spawn(append(append([]int(nil), st.choices[:n]...), a))
+			}
+			st.choices = append(append([]int(nil), st.choices[:n]...), 0)
+		}
+	}
+	a := alts[j]
+	st.ev = append(st.ev, a.ev...)
+	st.nPop = a.pop
+	if a.out == cPanic {
+		st.dead = a.why
+		st.deadPos = a.pos
 		return opsVal{}
 	}
-	same := true
-	for _, p := range sub[1:] {
-		if p.render() != sub[0].render() {
-			same = false
-		}
-	}
-	if same {
-		st.ev = append(st.ev, sub[0].ev...)
-		st.nPop = sub[0].pop
-		if sub[0].out == cPanic {
-			st.dead = sub[0].why
-			return opsVal{}
-		}
-		if len(sub[0].ret) == 1 {
-			return sub[0].ret[0]
-		}
-		return opsVal{}
-	}
-	st.ev = append(st.ev, opsEvent{k: oeFork, alts: sub, name: callee.Name(), pos: call.Pos()})
-	return opsVal{}
+	return opsRetVal(a.ret)
 }
 
 func (g *opsEng) implementsInstr(t types.Type) bool {
@@ -851,50 +1280,211 @@ func opsFlip(t token.Token) token.Token {
 
 // walk enumerates the paths of fd under cfg's assumptions.
 func (g *opsEng) walk(cfg *opsCfg, fd *ast.FuncDecl, bind map[types.Object]opsVal, depth, nPop int) (paths []opsPath, ok bool) {
-	info := g.info(fd)
-	ev := &opsEv{cfg: cfg, info: info, depth: depth}
-	st0 := &opsSt{env: map[types.Object]opsVal{}, nPop: nPop}
+	return g.walkBody(cfg, fd.Body, fd.End(), g.info(fd), bind, depth, nPop)
+}
+
+// walkBody: the walk is run once per choice prefix (see opsEv.enter); a run
+// with prefix P contributes the paths that made at least len(P) choices.
+func (g *opsEng) walkBody(cfg *opsCfg, body *ast.BlockStmt, end token.Pos, info *types.Info, bind map[types.Object]opsVal, depth, nPop int) (paths []opsPath, ok bool) {
+	pending := [][]int{nil}
+	queued := map[string]bool{"": true}
+	runs := 0
+	for len(pending) > 0 {
+		prefix := pending[0]
+		pending = pending[1:]
+		runs++
+		if runs > 400 {
+			return nil, false
+		}
+		spawn := func(p []int) {
+			k := fmt.Sprint(p)
+			if !queued[k] {
+				queued[k] = true
+				pending = append(pending, p)
+			}
+		}
+		ps, ok := g.walkOnce(cfg, body, end, info, bind, depth, nPop, prefix, spawn)
+		if !ok {
+			return nil, false
+		}
+		paths = append(paths, ps...)
+		if len(paths) > 6000 {
+			return nil, false
+		}
+	}
+	return paths, true
+}
+
+func (g *opsEng) walkOnce(cfg *opsCfg, body *ast.BlockStmt, end token.Pos, info *types.Info, bind map[types.Object]opsVal, depth, nPop int, prefix []int, spawn func([]int)) (paths []opsPath, ok bool) {
+	ev := &opsEv{cfg: cfg, info: info, depth: depth, spawn: spawn}
+	st0 := &opsSt{env: map[types.Object]opsVal{}, nPop: nPop, choices: append([]int(nil), prefix...)}
 	for k, v := range bind {
 		if k != nil {
 			st0.env[k] = v
 		}
 	}
 	record := func(st *opsSt, out ctrlKind, why string, pos token.Pos) {
+		if st.drop {
+			return
+		}
+		if st.nFork < len(prefix) {
+			return // enumerated by the run with the shorter prefix
+		}
 		paths = append(paths, opsPath{ev: st.ev, out: out, why: why, ret: st.ret, pos: pos, pop: st.nPop})
 	}
 	died := func(st *opsSt, pos token.Pos) bool {
 		if st.dead != "" {
+			if st.deadPos.IsValid() {
+				pos = st.deadPos
+			}
 			record(st, cPanic, st.dead, pos)
 			return true
 		}
 		return false
 	}
 	bindIdent := func(st *opsSt, l ast.Expr, v opsVal) {
-		id, ok := l.(*ast.Ident)
-		if !ok || id.Name == "_" {
+		switch x := ast.Unparen(l).(type) {
+		case *ast.Ident:
+			if x.Name == "_" {
+				return
+			}
+			obj := info.Defs[x]
+			if obj == nil {
+				obj = info.Uses[x]
+			}
+			if obj != nil {
+				st.env[obj] = v
+			}
+		case *ast.IndexExpr:
+			// t[k] = v on a local table: its content is no longer the literal's
+			if id, ok := ast.Unparen(x.X).(*ast.Ident); ok {
+				if obj := info.Uses[id]; obj != nil {
+					if t, ok := st.env[obj]; ok && t.k == ovTable {
+						st.env[obj] = opsVal{}
+					}
+				}
+			}
+		}
+	}
+	tsOf := map[ast.Stmt]*ast.TypeSwitchStmt{}
+	ast.Inspect(body, func(n ast.Node) bool {
+		if ts, ok := n.(*ast.TypeSwitchStmt); ok {
+			tsOf[ts.Assign] = ts
+		}
+		return true
+	})
+	// tsClass: does clause type e match the assumed kind of the switched value v (1 yes, 0 no, -1 not decidable)
+	tsClass := func(v opsVal, e ast.Expr) int {
+		if id, ok := ast.Unparen(e).(*ast.Ident); ok {
+			if _, isNil := info.Uses[id].(*types.Nil); isNil {
+				if v.k == ovNode || v.k == ovOperand {
+					return 0
+				}
+				return -1
+			}
+		}
+		if v.via {
+			return -1
+		}
+		return ev.assertHolds(v, info.TypeOf(e))
+	}
+	// enterTypeSwitch: called on the guard statement
+	enterTypeSwitch := func(st *opsSt, s ast.Stmt, v opsVal) {
+		st.tsVal = v
+		st.tsSkip = false
+		ts := tsOf[s]
+		if ts == nil {
 			return
 		}
-		obj := info.Defs[id]
-		if obj == nil {
-			obj = info.Uses[id]
+		hasDefault, certain := false, false
+		for _, c := range ts.Body.List {
+			cc := c.(*ast.CaseClause)
+			if cc.List == nil {
+				hasDefault = true
+			}
+			for _, e := range cc.List {
+				if tsClass(v, e) == 1 {
+					certain = true
+				}
+			}
 		}
-		if obj != nil {
-			st.env[obj] = v
+		if !hasDefault && certain {
+			st.tsSkip = true
 		}
+	}
+	isTypeSwitchGuard := func(e ast.Expr) (ast.Expr, bool) {
+		ta, ok := ast.Unparen(e).(*ast.TypeAssertExpr)
+		if ok && ta.Type == nil {
+			return ta.X, true
+		}
+		return nil, false
 	}
 	w := &Walker[*opsSt]{
 		Clone:    opsCloneSt,
 		MaxPaths: 4000,
-		IsPanic:  func(s ast.Stmt) bool { return IsPanicCall(info, s) },
+		IsPanic: func(s ast.Stmt) bool {
+			if IsPanicCall(info, s) {
+				return true
+			}
+			if es, ok := s.(*ast.ExprStmt); ok {
+				if call, ok := ast.Unparen(es.X).(*ast.CallExpr); ok {
+					return g.divergingCall(info, call)
+				}
+			}
+			return false
+		},
 		OnStmt: func(st *opsSt, s ast.Stmt) (*opsSt, bool) {
+			if st.tsSkip || st.drop {
+				return st, false
+			}
 			switch x := s.(type) {
 			case *ast.ExprStmt:
+				if sx, ok := isTypeSwitchGuard(x.X); ok {
+					enterTypeSwitch(st, s, ev.eval(st, sx))
+					break
+				}
 				ev.eval(st, x.X)
 			case *ast.AssignStmt:
+				if len(x.Lhs) == 1 && len(x.Rhs) == 1 {
+					if sx, ok := isTypeSwitchGuard(x.Rhs[0]); ok {
+						enterTypeSwitch(st, s, ev.eval(st, sx))
+						break
+					}
+				}
 				if len(x.Lhs) == 2 && len(x.Rhs) == 1 {
 					if ta, ok := ast.Unparen(x.Rhs[0]).(*ast.TypeAssertExpr); ok {
 						v := ev.eval(st, ta.X) // comma-ok: never panics
-						bindIdent(st, x.Lhs[0], v)
+						switch ev.assertHolds(v, info.TypeOf(ta.Type)) {
+						case 1:
+							if v.k == ovNode {
+								v = opsVal{k: ovNode, nodeT: info.TypeOf(ta.Type)}
+							}
+							bindIdent(st, x.Lhs[0], v)
+							bindIdent(st, x.Lhs[1], opsVal{k: ovLit, lit: constant.MakeBool(true)})
+						case 0:
+							bindIdent(st, x.Lhs[0], opsVal{})
+							bindIdent(st, x.Lhs[1], opsVal{k: ovLit, lit: constant.MakeBool(false)})
+						default:
+							bindIdent(st, x.Lhs[0], v)
+							bindIdent(st, x.Lhs[1], opsVal{})
+						}
+						break
+					}
+					if ix, ok := ast.Unparen(x.Rhs[0]).(*ast.IndexExpr); ok {
+						// v, ok := table[k]
+						t := ev.eval(st, ix.X)
+						k := ev.eval(st, ix.Index)
+						if t.k == ovTable && t.tbl.isMap {
+							v, found, known := ev.lookup(st, t.tbl, k)
+							bindIdent(st, x.Lhs[0], v)
+							if known {
+								bindIdent(st, x.Lhs[1], opsVal{k: ovLit, lit: constant.MakeBool(found)})
+							} else {
+								bindIdent(st, x.Lhs[1], opsVal{})
+							}
+							break
+						}
+						bindIdent(st, x.Lhs[0], opsVal{})
 						bindIdent(st, x.Lhs[1], opsVal{})
 						break
 					}
@@ -906,9 +1496,17 @@ func (g *opsEng) walk(cfg *opsCfg, fd *ast.FuncDecl, bind map[types.Object]opsVa
 				if x.Tok == token.ASSIGN || x.Tok == token.DEFINE {
 					for i, l := range x.Lhs {
 						v := opsVal{}
-						if len(x.Rhs) == len(x.Lhs) {
+						switch {
+						case len(x.Rhs) == len(x.Lhs):
 							v = vals[i]
-						} else if i == 0 {
+							if v.k == ovTuple {
+								v = opsVal{}
+							}
+						case len(x.Rhs) == 1 && vals[0].k == ovTuple:
+							if i < len(vals[0].tup) {
+								v = vals[0].tup[i]
+							}
+						case i == 0:
 							v = vals[0]
 						}
 						bindIdent(st, l, v)
@@ -922,9 +1520,20 @@ func (g *opsEng) walk(cfg *opsCfg, fd *ast.FuncDecl, bind map[types.Object]opsVa
 				if gd, ok := x.Decl.(*ast.GenDecl); ok {
 					for _, sp := range gd.Specs {
 						if vs, ok := sp.(*ast.ValueSpec); ok {
+							var tup []opsVal
+							if len(vs.Values) == 1 && len(vs.Names) > 1 {
+								if v := ev.eval(st, vs.Values[0]); v.k == ovTuple {
+									tup = v.tup
+								}
+							}
 							for i, n := range vs.Names {
 								v := opsVal{}
-								if i < len(vs.Values) {
+								switch {
+								case tup != nil:
+									if i < len(tup) {
+										v = tup[i]
+									}
+								case len(vs.Values) == len(vs.Names):
 									v = ev.eval(st, vs.Values[i])
 								}
 								if obj := info.Defs[n]; obj != nil {
@@ -939,6 +1548,9 @@ func (g *opsEng) walk(cfg *opsCfg, fd *ast.FuncDecl, bind map[types.Object]opsVa
 				for _, r := range x.Results {
 					st.ret = append(st.ret, ev.eval(st, r))
 				}
+				if len(st.ret) == 1 && st.ret[0].k == ovTuple {
+					st.ret = append([]opsVal(nil), st.ret[0].tup...)
+				}
 			case *ast.IncDecStmt, *ast.GoStmt, *ast.SendStmt:
 			}
 			if died(st, s.Pos()) {
@@ -946,44 +1558,47 @@ func (g *opsEng) walk(cfg *opsCfg, fd *ast.FuncDecl, bind map[types.Object]opsVa
 			}
 			return st, true
 		},
-		OnCond: func(st *opsSt, cond ast.Expr, taken bool) (*opsSt, bool) {
-			if be, ok := cond.(*ast.BinaryExpr); ok {
-				switch be.Op {
-				case token.EQL, token.NEQ, token.LSS, token.LEQ, token.GTR, token.GEQ:
-					l := ev.eval(st, be.X)
-					r := ev.eval(st, be.Y)
-					if died(st, cond.Pos()) {
-						return st, false
-					}
-					if be.Op == token.EQL || be.Op == token.NEQ {
-						if l.k == ovConst && r.k == ovConst {
-							eq := opsSameConst(l.c, r.c)
-							return st, (eq == (be.Op == token.EQL)) == taken
-						}
-					}
-					op := be.Op
-					if l.k == ovLit && r.k == ovOperand {
-						l, r = r, l
-						op = opsFlip(op)
-					}
-					if l.k == ovOperand && l.inner && r.k == ovLit {
-						if !taken {
-							op = opsNegate(op)
-						}
-						st.ev = append(st.ev, opsEvent{k: oeCond, x: l, tok: op, lit: r.lit, pos: be.OpPos})
-					} else if l.k == ovOperand && l.inner && r.k == ovOperand && r.inner {
-						st.ev = append(st.ev, opsEvent{k: oeApply, tok: be.Op, x: l, y: r, goT: info.TypeOf(be.X), pos: be.OpPos})
-					}
-					return st, true
-				}
+		OnDefer: func(st *opsSt, d *ast.DeferStmt) (*opsSt, bool) {
+			if st.tsSkip || st.drop {
+				return st, false
 			}
-			ev.eval(st, cond)
+			snap := make(map[types.Object]opsVal, len(st.env))
+			for k, v := range st.env {
+				snap[k] = v
+			}
+			st.deferred = append(st.deferred, opsDeferred{call: d.Call, env: snap})
+			return st, true
+		},
+		OnCond: func(st *opsSt, cond ast.Expr, taken bool) (*opsSt, bool) {
+			if st.tsSkip || st.drop {
+				return st, false
+			}
+			v := ev.eval(st, cond)
 			if died(st, cond.Pos()) {
 				return st, false
+			}
+			switch v.k {
+			case ovLit:
+				if v.lit.Kind() == constant.Bool {
+					return st, constant.BoolVal(v.lit) == taken
+				}
+			case ovCmp:
+				op := v.cmp.tok
+				if !taken {
+					op = opsNegate(op)
+				}
+				pos := cond.Pos()
+				if be, ok := cond.(*ast.BinaryExpr); ok {
+					pos = be.OpPos
+				}
+				st.ev = append(st.ev, opsEvent{k: oeCond, x: v.cmp.x, tok: op, lit: v.cmp.lit, pos: pos})
 			}
 			return st, true
 		},
 		OnCase: func(st *opsSt, sw *ast.SwitchStmt, vals, others []ast.Expr) (*opsSt, bool) {
+			if st.tsSkip || st.drop {
+				return st, false
+			}
 			tag := ev.eval(st, sw.Tag)
 			if died(st, sw.Pos()) {
 				return st, false
@@ -1006,11 +1621,10 @@ func (g *opsEng) walk(cfg *opsCfg, fd *ast.FuncDecl, bind map[types.Object]opsVa
 				return
 			}
 			if vals == nil {
-				hit, dec := match(others)
+				hit, _ := match(others)
 				if hit {
 					return st, false
 				}
-				_ = dec
 				return st, true
 			}
 			hit, dec := match(vals)
@@ -1019,7 +1633,44 @@ func (g *opsEng) walk(cfg *opsCfg, fd *ast.FuncDecl, bind map[types.Object]opsVa
 			}
 			return st, !dec
 		},
+		OnTypeCase: func(st *opsSt, sw *ast.TypeSwitchStmt, cc *ast.CaseClause) (*opsSt, bool) {
+			v := st.tsVal
+			st.tsSkip = false // this is a clause state (a clone), not the continuation behind the switch
+			feasible := false
+			if cc.List == nil {
+				feasible = true
+				for _, c := range sw.Body.List {
+					for _, e := range c.(*ast.CaseClause).List {
+						if tsClass(v, e) == 1 {
+							feasible = false
+						}
+					}
+				}
+			} else {
+				for _, e := range cc.List {
+					if tsClass(v, e) != 0 {
+						feasible = true
+					}
+				}
+			}
+			if !feasible {
+				return st, false
+			}
+			if as, ok := sw.Assign.(*ast.AssignStmt); ok && len(as.Lhs) == 1 {
+				if obj := info.Implicits[cc]; obj != nil {
+					bv := v
+					if v.k == ovNode && len(cc.List) == 1 {
+						bv = opsVal{k: ovNode, nodeT: info.TypeOf(cc.List[0])}
+					}
+					st.env[obj] = bv
+				}
+			}
+			return st, true
+		},
 		OnRange: func(st *opsSt, r *ast.RangeStmt) (*opsSt, bool) {
+			if st.tsSkip || st.drop {
+				return st, false
+			}
 			ev.eval(st, r.X)
 			if r.Key != nil {
 				bindIdent(st, r.Key, opsVal{})
@@ -1031,51 +1682,38 @@ func (g *opsEng) walk(cfg *opsCfg, fd *ast.FuncDecl, bind map[types.Object]opsVa
 		},
 	}
 	w.Exit = func(st *opsSt, o outcome) {
+		if st.tsSkip || st.drop {
+			return
+		}
+		if o.kind != cPanic && len(st.deferred) > 0 {
+			// deferred calls run when the function returns, last first, with the arguments bound at the defer
+			ret := append([]opsVal(nil), st.ret...)
+			cur := st.env
+			for i := len(st.deferred) - 1; i >= 0; i-- {
+				st.env = st.deferred[i].env
+				ev.eval(st, st.deferred[i].call)
+			}
+			st.env = cur
+			st.ret = ret
+			st.deferred = nil
+			if died(st, o.at) {
+				return
+			}
+		}
 		switch o.kind {
 		case cPanic:
 			record(st, cPanic, "panic() statement", o.at)
 		case cReturn:
 			record(st, cReturn, "", o.at)
 		default:
-			record(st, cNormal, "", fd.End())
+			record(st, cNormal, "", end)
 		}
 	}
-	w.Run(fd.Body, st0)
+	w.Run(body, st0)
 	if w.Overflow {
 		return nil, false
 	}
-	// expand forks
-	var out []opsPath
-	for _, p := range paths {
-		out = append(out, opsExpand(p)...)
-		if len(out) > 6000 {
-			return nil, false
-		}
-	}
-	return out, true
-}
-
-// opsExpand substitutes every alternative of every fork event.
-func opsExpand(p opsPath) []opsPath {
-	for i, e := range p.ev {
-		if e.k != oeFork {
-			continue
-		}
-		rest := opsExpand(opsPath{ev: p.ev[i+1:], out: p.out, why: p.why, ret: p.ret, pos: p.pos, pop: p.pop})
-		var out []opsPath
-		for _, a := range e.alts {
-			pre := append(append([]opsEvent(nil), p.ev[:i]...), a.ev...)
-			if a.out == cPanic {
-				out = append(out, opsPath{ev: pre, out: cPanic, why: a.why, pos: a.pos, pop: a.pop})
-				continue
-			}
-			for _, r := range rest {
-				out = append(out, opsPath{ev: append(append([]opsEvent(nil), pre...), r.ev...), out: r.out, why: r.why, ret: r.ret, pos: r.pos, pop: r.pop})
-			}
-		}
-		return out
-	}
-	return []opsPath{p}
+	return paths, true
 }
 
 // ---------------------------------------------------------------- source order of node fields
@@ -1116,48 +1754,62 @@ func (g *opsEng) fieldOrder(tn *types.TypeName) opsFieldOrder {
 	}
 	info := g.info(fd)
 	recv := info.Defs[fd.Recv.List[0].Names[0]]
-	rs, ok := fd.Body.List[len(fd.Body.List)-1].(*ast.ReturnStmt)
-	if !ok || len(rs.Results) != 1 {
-		decl()
-		g.ordMemo[tn] = res
-		return res
-	}
-	call, ok := ast.Unparen(rs.Results[0]).(*ast.CallExpr)
-	var fargs []ast.Expr
-	if ok {
-		if cal := CalleeOf(info, call); cal != nil && cal.Pkg() != nil && cal.Pkg().Path() == "fmt" && strings.HasPrefix(cal.Name(), "Sprint") {
-			fargs = call.Args
+	// the printed text: the results of the return statements, locals traced back to what
+	// they are computed / accumulated from, in statement order
+	var rets []ast.Expr
+	defs := map[types.Object][]ast.Expr{}
+	rootVar := func(e ast.Expr) types.Object {
+		for {
+			switch x := ast.Unparen(e).(type) {
+			case *ast.IndexExpr:
+				e = x.X
+				continue
+			case *ast.UnaryExpr:
+				if x.Op == token.AND {
+					e = x.X
+					continue
+				}
+			case *ast.StarExpr:
+				e = x.X
+				continue
+			case *ast.Ident:
+				o := info.Defs[x]
+				if o == nil {
+					o = info.Uses[x]
+				}
+				if v, ok := o.(*types.Var); ok && v != recv && !v.IsField() {
+					return v
+				}
+			}
+			return nil
 		}
 	}
-	if fargs == nil {
-		decl()
-		g.ordMemo[tn] = res
-		return res
-	}
-	// definitions of local variables, and range variables
-	defs := map[types.Object][]ast.Expr{}
 	ast.Inspect(fd.Body, func(n ast.Node) bool {
 		switch x := n.(type) {
+		case *ast.FuncLit:
+			return false
+		case *ast.ReturnStmt:
+			if len(x.Results) == 1 {
+				rets = append(rets, x.Results[0])
+			}
 		case *ast.AssignStmt:
 			for i, l := range x.Lhs {
-				root := l
-				for {
-					if ix, ok := root.(*ast.IndexExpr); ok {
-						root = ix.X
-						continue
+				if o := rootVar(l); o != nil {
+					if len(x.Rhs) == len(x.Lhs) {
+						defs[o] = append(defs[o], x.Rhs[i])
+					} else {
+						defs[o] = append(defs[o], x.Rhs...)
 					}
-					break
 				}
-				if id, ok := root.(*ast.Ident); ok {
-					o := info.Defs[id]
-					if o == nil {
-						o = info.Uses[id]
-					}
-					if o != nil {
-						if len(x.Rhs) == len(x.Lhs) {
-							defs[o] = append(defs[o], x.Rhs[i])
-						} else {
-							defs[o] = append(defs[o], x.Rhs...)
+			}
+		case *ast.DeclStmt:
+			if gd, ok := x.Decl.(*ast.GenDecl); ok {
+				for _, sp := range gd.Specs {
+					if vs, ok := sp.(*ast.ValueSpec); ok {
+						for i, nm := range vs.Names {
+							if o := info.Defs[nm]; o != nil && i < len(vs.Values) {
+								defs[o] = append(defs[o], vs.Values[i])
+							}
 						}
 					}
 				}
@@ -1170,39 +1822,78 @@ func (g *opsEng) fieldOrder(tn *types.TypeName) opsFieldOrder {
 					}
 				}
 			}
-		}
-		return true
-	})
-	var order []string
-	seenF := map[string]bool{}
-	seenV := map[types.Object]bool{}
-	var fieldsOf func(e ast.Expr)
-	fieldsOf = func(e ast.Expr) {
-		ast.Inspect(e, func(n ast.Node) bool {
-			switch x := n.(type) {
-			case *ast.SelectorExpr:
-				if id, ok := x.X.(*ast.Ident); ok && info.Uses[id] == recv {
-					if s := info.Selections[x]; s != nil && s.Kind() == types.FieldVal {
-						if !seenF[x.Sel.Name] {
-							seenF[x.Sel.Name] = true
-							order = append(order, x.Sel.Name)
+		case *ast.ExprStmt:
+			// accumulation into a local: b.WriteString(x), fmt.Fprintf(&b, ...), list = append(list, x) is an AssignStmt
+			if call, ok := ast.Unparen(x.X).(*ast.CallExpr); ok {
+				if sel, ok := ast.Unparen(call.Fun).(*ast.SelectorExpr); ok {
+					if o := rootVar(sel.X); o != nil {
+						defs[o] = append(defs[o], call.Args...)
+					} else if len(call.Args) > 1 {
+						if o := rootVar(call.Args[0]); o != nil {
+							defs[o] = append(defs[o], call.Args[1:]...)
 						}
-						return false
-					}
-				}
-			case *ast.Ident:
-				if o, ok := info.Uses[x].(*types.Var); ok && o != recv && !seenV[o] {
-					seenV[o] = true
-					for _, d := range defs[o] {
-						fieldsOf(d)
 					}
 				}
 			}
-			return true
-		})
+		}
+		return true
+	})
+	if len(rets) == 0 {
+		decl()
+		g.ordMemo[tn] = res
+		return res
 	}
-	for _, a := range fargs {
-		fieldsOf(a)
+	orderOf := func(e ast.Expr) []string {
+		var order []string
+		seenF := map[string]bool{}
+		seenV := map[types.Object]bool{}
+		var fieldsOf func(e ast.Expr)
+		fieldsOf = func(e ast.Expr) {
+			ast.Inspect(e, func(n ast.Node) bool {
+				switch x := n.(type) {
+				case *ast.SelectorExpr:
+					if id, ok := x.X.(*ast.Ident); ok && info.Uses[id] == recv {
+						if s := info.Selections[x]; s != nil && s.Kind() == types.FieldVal {
+							if !seenF[x.Sel.Name] {
+								seenF[x.Sel.Name] = true
+								order = append(order, x.Sel.Name)
+							}
+							return false
+						}
+					}
+				case *ast.Ident:
+					if o, ok := info.Uses[x].(*types.Var); ok && o != recv && !seenV[o] {
+						seenV[o] = true
+						for _, d := range defs[o] {
+							fieldsOf(d)
+						}
+					}
+				}
+				return true
+			})
+		}
+		// a Sprint-style call: its arguments in order (the format string carries no fields)
+		fieldsOf(e)
+		return order
+	}
+	var order []string
+	sprint := false
+	for _, r := range rets {
+		if o := orderOf(r); len(o) >= len(order) {
+			order = o
+			sprint = false
+			if call, ok := ast.Unparen(r).(*ast.CallExpr); ok {
+				if cal := CalleeOf(info, call); cal != nil && cal.Pkg() != nil && cal.Pkg().Path() == "fmt" && strings.HasPrefix(cal.Name(), "Sprint") {
+					sprint = true
+				}
+			}
+		}
+	}
+	// a printer that is not a Sprint call and shows fewer than two fields orders nothing: declaration order
+	if len(order) == 0 || (len(order) < 2 && !sprint) {
+		decl()
+		g.ordMemo[tn] = res
+		return res
 	}
 	for i, f := range order {
 		res.rank[f] = i
